@@ -30,7 +30,7 @@ ASSUMPTIONS = ['Linux; CPython 3.12.1', 'a thread nests acquires only on a reent
 
 
 def batches(tier):
-    k = 1 if tier == 'quick' else 12
+    k = 1 if tier == 'quick' else 40
     return [{'name': 'threads', 'n': 16000 * k, 'profile': 'conc'},
             {'name': 'processes', 'n': 1200 * k, 'profile': 'proc', 'chunk': 40}]
 
